@@ -181,6 +181,27 @@ pub fn shapes_with(content: u8) -> Vec<Shape> {
             }
         }
     }
+    if content == 0 {
+        // data fields whose last bytes repeat the Le field that follows them (extended Le 01 02,
+        // 00 00; short Le 01, 00), with the announced key-handle length 0..=3 short of / equal to
+        // what is there
+        for kh in [0usize, 16] {
+            for surplus in 0..=3usize {
+                let len = 65 + kh + surplus;
+                for (enc, tail) in [(5u8, &[0x01u8, 0x02][..]), (3, &[0x00, 0x00][..]), (4, &[0x01][..]), (1, &[0x00][..]), (5, &[0x00, 0x01, 0x02][..])] {
+                    let mut data = fill_bytes(len, 11);
+                    data[64] = kh as u8;
+                    let n = data.len();
+                    if tail.len() <= n - 65 {
+                        data[n - tail.len()..].copy_from_slice(tail);
+                    }
+                    if let Some(b) = body(&data, enc) {
+                        out.push(Shape { data: data.clone(), enc, body: b });
+                    }
+                }
+            }
+        }
+    }
     out
 }
 
@@ -402,6 +423,40 @@ pub fn run(ctx: &'static Ctx) {
             }
         }
         pair_histories(ctx, P, "conversion call pairs", "every ordered pair of header x shape samples converted back to back", &items);
+    }
+    if ctx.thorough() && crate::cfg_name() == "cfg-000" {
+        // a decision remembered from the previous call must not be reusable: after a valid
+        // authenticate, the same frame with a wrong length byte and EVERY 32-bit value in one
+        // aligned word of the key handle must be rejected (one worker: the calls form a sequence)
+        let mut good = fill_bytes(65 + 16, 11);
+        good[64] = 16;
+        let mut good_apdu = vec![0x00, 0x02, 0x03, 0x00, good.len() as u8];
+        good_apdu.extend_from_slice(&good);
+        let (gr, ga) = (&good, &good_apdu);
+        sweep_seq(ctx, "authenticate after a valid authenticate: every value of one 32-bit word", 1u64 << 32, "valid frame, then the same frame with data[64] = 15 and data[68..72] = every 32-bit value: always IncorrectDataParameter", move |idx, l| {
+            thread_local! { static BUF: std::cell::RefCell<(Vec<u8>, Vec<u8>)> = std::cell::RefCell::new((Vec::new(), Vec::new())); }
+            BUF.with(|b| {
+                let mut b = b.borrow_mut();
+                let (data, apdu) = &mut *b;
+                if data.is_empty() {
+                    *data = gr.clone();
+                    data[64] = 15;
+                    *apdu = ga.clone();
+                    apdu[5 + 64] = 15;
+                }
+                let w = (idx as u32).to_le_bytes();
+                data[68..72].copy_from_slice(&w);
+                apdu[5 + 68..5 + 72].copy_from_slice(&w);
+                l.nontrivial += 1;
+                let first = check_view(0, 2, 3, gr, ga);
+                let second = check_view(0, 2, 3, data, apdu);
+                if !first.ok || !second.ok {
+                    let v = if first.ok { second } else { first };
+                    let bytes = apdu.clone();
+                    l.fail(ctx, idx, v, || json!({"kind": "apdu", "owned": false, "apdu": hex(&bytes), "data_len": 81, "encoding": 0, "note": "sent right after the valid frame; depends on process history"}));
+                }
+            });
+        });
     }
     ctx.require_outcomes(&["ClassNotSupported", "Version", "Register", "Authenticate", "IncorrectDataParameter", "InstructionNotSupportedOrInvalid", "rejected by iso7816 (class 0xFF)"]);
     ctx.sample(json!({"apdu": "00 02 07 00 | 00 01 40 <320 bytes, data[64]=255> 00 00", "oracle": "Authenticate(check-only), key handle = data[65..320]"}));
